@@ -309,7 +309,31 @@ def enum_param_targets(q, enums):
                                           (r'^ctor\|[^|]*basic_string_view<char[^|]*\|void \(const (std::)?basic_string_view<char[^|]*&\)', '{0}')]
         return [Fn('parameter_value_enum_t', enums.driver2(), 'value', flt='nano::parameter_t::value', select=lambda d: astload.template_args(d)[:1] == [q],
                    self_struct='struct nv_parameter', **c)]
-    return [Target(f'enum_{sn}_assign', assign, HPE, enforce='parameter_assign_enum_t', replace=['parameter_assign_str'],
+    def make():
+        v = enums._check_static_init(enums.driver2(), 'nano::parameter_t::make_enum', 'make_enum_', lambda d: astload.template_args(d)[:1] == [q], q, 'options')
+        c = dict(common())
+        pair = r'std::pair<' + e + r', char \*>'
+        c['types'] = TYPES + [(r'^' + e + r'$', 'int64_t'),
+                              (r'^(nano::)?enum_map_t<' + e + r'>$|^std::vector<' + pair + r'\s*(, std::allocator<.*)?>$', 'struct nv_etab2'),
+                              (r'__normal_iterator<\s*' + pair + r'|^std::vector<' + pair + r'.*>::const_iterator$', 'struct nv_eopt2*'),
+                              (r'^' + pair + r'$', 'struct nv_eopt2'),
+                              (r'__normal_iterator<\s*std::basic_string<char> \*|^std::vector<std::basic_string<char>.*>::iterator$', 'struct nv_str*')]
+        VE = r'(const )?(nano::)?(enum_map_t|std::vector<std::pair)<'
+        c['members'] = MEMBERS + [(r'^begin\|' + VE, '{*self}.p'), (r'^end\|' + VE, '({*self}.p + {*self}.n)'), (r'^size\|' + VE, '((uint64_t){*self}.n)')]
+        c['calls'] = common()['calls'] + [(r'^scat\|nano::string_t \(const ' + e + r' &\)', 'nv_scat_enum_t((int64_t){0})!^'),
+                                          (r'^transform\|', 'nv_transform_names({0}, {1}, {2})'),
+                                          (r'^ctor\|(nano::strings_t|std::vector<std::basic_string<char>[^|]*)\|void \((std::vector(<[^|]*>)?::)?size_type, ', 'nv_strs_sized({0})'),
+                                          (r'^ctor\|[^|]*vector<std::basic_string<char>[^|]*\|void \((std::)?vector<.*&&\)', '{0}'),
+                                          (r'^ctor\|[^|]*basic_string<char[^|]*\|void \((std::)?(__cxx11::)?basic_string<char[^|]*&&\)', '{0}'),
+                                          (r'^ctor\|nano::parameter_t\|void \(nano::string_t, nano::parameter_t::enum_t\)', 'nv_parameter_make_enum({0}, {1})!')]
+        sel = lambda d: astload.template_args(d)[:1] == [q]
+        f = Fn('make_enum_', enums.driver2(), 'make_enum_', flt='nano::parameter_t::make_enum', select=sel, aggregates=['struct nv_enum'], **c)
+        lam = Fn('make_enum_name', enums.driver2(), 'make_enum_', flt='nano::parameter_t::make_enum', select=sel, lambda_index=0, ret='struct nv_str', **c)
+        return [f, lam, ctor('parameter_ctor_enum', 'enum_t'), upd_enum()], v
+    mk = [Target(f'enum_{sn}_make', lambda: make()[0], HPE, enforce='make_enum_',
+                 defines=['NV_MAKE_ENUM=1', lambda: 'NV_MAKE_ENUM_STATIC=nv_static_make_enum__' + make()[1]],
+                 note=f'parameter_t::make_enum_<{q}>: the stored domain list is the list of the table names')]
+    return mk + [Target(f'enum_{sn}_assign', assign, HPE, enforce='parameter_assign_enum_t', replace=['parameter_assign_str'],
                    note=f'parameter_t::operator=({q})'),
             T(f'enum_{sn}_value', value, prelude=HPE, enforce='parameter_value_enum_t', note=f'parameter_t::value<{q}>()')]
 
@@ -386,7 +410,7 @@ def build(tier):
     for k, q in enumerate(enums.quick_enums(tier)):
         # operator=(tenum) drags the whole string assignment along (2000 obligations): the quick tier checks the first instantiation
         # (one template body, the instantiations differ in T only), the thorough tier every instantiation; value<tenum>() always all
-        targets += [t for t in enum_param_targets(q, enums) if tier == 'thorough' or k == 0 or not t.name.endswith('_assign')]
+        targets += [t for t in enum_param_targets(q, enums) if tier == 'thorough' or k == 0 or not t.name.endswith(('_assign', '_make'))]
     import clones
     targets += clones.targets()
     import factory
